@@ -635,7 +635,8 @@ def judge_histories(ctx, hists, certs, stage):
         h = hists[i]
         k = int(str(at).strip() or 0)
         e = h['ev'][k - 1] if 0 < k <= len(h['ev']) else {'a': 'end'}
-        ctx.violation('C16/signer-reuse/%s/%s/key-locator-not-the-configured-one' % (h['signer'], e.get('fn', e['a'])),
+        ctx.violation('C16/signer-reuse/%s/%s/%s' % (h['signer'], e.get('fn', e['a']),
+                      'held-certificate-changed' if e['a'] == 'Recheck' else 'key-locator-not-the-configured-one'),
                       'history on one %s signer rejected by NdnPacketsCertHistTrace at event %s %s: the certificate names locator #%s; '
                       'events %s' % (h['signer'], k, e, e.get('kl'), h['ev']), dict(h['rep'], rejected_at=k))
     report_rejected(ctx, certs, pk.judge(ctx, 'NdnPacketsCertTrace', 'NdnPacketsCertTrace.cfg', certs, 'c16-histcerts-' + stage),
